@@ -81,12 +81,12 @@ impl<'a, T> AnyIter<'a, T> {
         false
     }
 }
-pub struct AiTranscript { pub _opaque: () }
+#[verifier::external_body] pub struct AiTranscript { _o: () }
 
-pub struct Repository { pub _opaque: () }
-pub struct PersistedWorkingLog { pub _opaque: () }
-pub struct PromptRecord { pub _opaque: () }
-pub struct BlameDate { pub _opaque: () }
+#[verifier::external_body] pub struct Repository { _o: () }
+#[verifier::external_body] pub struct PersistedWorkingLog { _o: () }
+#[verifier::external_body] pub struct PromptRecord { _o: () }
+#[verifier::external_body] pub struct BlameDate { _o: () }
 pub enum GitAiError { Generic(String) }
 /// std::sync::Arc read as what it is for this code: an immutable shared value
 pub struct Arc<T> { pub v: T }
@@ -95,7 +95,7 @@ impl<T> Arc<T> {
         ensures *r == self.v,
     { &self.v }
 }
-pub struct Instant { pub _opaque: () }
+#[verifier::external_body] pub struct Instant { _o: () }
 impl Instant {
     #[verifier::external_body]
     pub fn now() -> Instant { unimplemented!() }
@@ -606,7 +606,7 @@ pub uninterp spec fn fill_spec(prev: Seq<char>, attrs: Seq<Attribution>, author:
 pub uninterp spec fn update_spec(prev: Seq<char>, cur: Seq<char>, attrs: Seq<Attribution>, author: Seq<char>, ts: u128) -> Result<Seq<Attribution>, GitAiError>;
 pub uninterp spec fn project(attrs: Seq<Attribution>, content: Seq<char>) -> Seq<LineAttribution>;
 spec fn line_stats_of(prev: Seq<char>, cur: Seq<char>) -> FileLineStats;
-pub struct AttributionTracker { pub _opaque: () }
+#[verifier::external_body] pub struct AttributionTracker { _o: () }
 impl AttributionTracker {
     #[verifier::external_body]
     pub fn new() -> Self { unimplemented!() }
